@@ -387,6 +387,24 @@ def run_inventory(R, rid, root_name, desc, restrict=None):
                                                                "divzero": "division by zero panics",
                                                                "cast": "narrowing/sign-changing `as` silently truncates or wraps",
                                                                "bounds": "index out of bounds panics"}.get(s.kind, ""))})
+    # external callees reachable from the roots: the may-panic table is only complete for the APIs that were classified; any external callee
+    # that is new relative to the frozen list is named in the evidence (assumed non-panicking unless it matches a may-panic pattern)
+    ext = set()
+    for k in reach:
+        for c in P.fns[k].calls:
+            if not (c.func.get("res_local") or c.func.get("local") or c.func.get("crate") == "sqlgrep") and c.func.get("key"):
+                ext.add(short(c.name))
+    known_ext = set()
+    ep = os.path.join(VERIF, "tables", "external_callees.json")
+    if os.path.exists(ep):
+        with open(ep) as fh:
+            known_ext = set(json.load(fh).get(root_name, []))
+    new_ext = sorted(x for x in ext - known_ext if not x.startswith(("core::", "alloc::", "std::", "<core::", "<alloc::", "<std::", "<&")))
+    R.note("%s: %d distinct external callees (%d third-party); new third-party callees relative to tables/external_callees.json: %s"
+           % (root_name, len(ext), len([x for x in ext if not x.startswith(("core::", "alloc::", "std::", "<core::", "<alloc::", "<std::", "<&"))]),
+              new_ext or "none"))
+    R._ext = getattr(R, "_ext", {})
+    R._ext[root_name] = sorted(ext)
     R.note("%s: %d functions reachable from %d roots; %d sites" % (root_name, len(reach), len(rs), len(all_sites)))
     return all_sites, reach
 
